@@ -6,6 +6,7 @@
 #include <deque>
 #include <memory>
 #include <optional>
+#include <string>
 
 namespace qh {
 using namespace xsim;
@@ -45,6 +46,31 @@ struct PtrQueue : IQueue {
   bool pop(int& v) override {
     auto r = q.pop();
     if (r) v = (int)(*r - g_vals);
+    return r.has_value();
+  }
+};
+
+// by-value element type whose move is not a copy (the moved-from string is empty): a value that is moved once too
+// often or taken from a moved-from object comes out as "" and decodes to 0, which nobody pushed
+template <class Q>
+struct StrQueue : IQueue {
+  Q q;
+  static std::string enc(int v) { return std::string("value-with-a-heap-buffer-#") + std::to_string(v); }
+  static int dec(const std::string& s) {
+    size_t p = s.rfind('#');
+    if (p == std::string::npos || s.compare(0, p + 1, "value-with-a-heap-buffer-#") != 0) return 0;
+    return atoi(s.c_str() + p + 1);
+  }
+  void push(int v) override { q.push(enc(v)); }
+  bool try_pop(int& v) override {
+    std::string s;
+    bool ok = q.try_pop(s);
+    if (ok) v = dec(s);
+    return ok;
+  }
+  bool pop(int& v) override {
+    auto r = q.pop();
+    if (r) v = dec(*r);
     return r.has_value();
   }
 };
@@ -222,6 +248,10 @@ public:
 template <class Q>
 IQueue* make_int() {
   return new IntQueue<Q>();
+}
+template <class Q>
+IQueue* make_str() {
+  return new StrQueue<Q>();
 }
 template <class Q>
 IQueue* make_ptr() {
